@@ -2,7 +2,7 @@
 //! Coverage-guided search over byte sessions (a search aid for the correspondence check,
 //! never a verdict by itself: whatever it keeps is replayed through the harness and the Lean model).
 //!
-//! input: b0 b1 = geometry (< 128: an entry of the tables below, else 1 + (b - 128)); then a byte stream in which 0xFF introduces the operations that have
+//! input: b0 b1 = geometry (< 128: an entry of the tables below, else 1 + (b - 128) % 40: big screens only through the table); then a byte stream in which 0xFF introduces the operations that have
 //! no byte spelling: FF 00 display, FF 01 a b resize, FF 02 cut the feed here, FF 03 k
 //! select_other_charset, FF FF a literal FF.  `tools/fz2sess.py` decodes the same format.
 use libfuzzer_sys::fuzz_target;
@@ -18,7 +18,7 @@ fuzz_target!(|data: &[u8]| {
     if data.len() < 2 || data.len() > 4096 {
         return;
     }
-    let cols = if data[0] < 128 { COLS[(data[0] & 15) as usize] } else { 1 + (data[0] - 128) as u32 };
+    let cols = if data[0] < 128 { COLS[(data[0] & 15) as usize] } else { 1 + ((data[0] - 128) as u32) % 40 };
     let lines = if data[1] < 128 { LINES[(data[1] & 7) as usize] } else { 1 + ((data[1] - 128) as u32) % 40 };
     let screen = Arc::new(Mutex::new(Screen::new(cols, lines)));
     let mut p = ByteParser::new(screen.clone());
@@ -49,7 +49,7 @@ fuzz_target!(|data: &[u8]| {
             Some(0x01) if i + 3 < d.len() => {
                 flush!();
                 let l = 1 + (d[i + 2] as u32) % 40;
-                let c = 1 + (d[i + 3] as u32) % 140;
+                let c = if d[i + 3] < 200 { 1 + (d[i + 3] as u32) % 24 } else { COLS[((d[i + 3] - 200) & 15) as usize] };
                 screen.lock().unwrap().resize(Some(l), Some(c));
                 i += 4;
             }
